@@ -35,6 +35,7 @@ type Req struct {
 	URI    string                 `json:"uri"`
 	Params map[string]interface{} `json:"params"`
 	Neg    string                 `json:"negative,omitempty"` // why an error is expected
+	RawURI interface{}            `json:"raw_uri,omitempty"`  // replaces the uri in renderings that carry one as data
 }
 
 type Resp struct {
@@ -138,8 +139,14 @@ type encoding struct {
 	do   func(e *engine, r Req) Resp
 }
 
-func withURI(r Req) map[string]interface{} {
-	m := map[string]interface{}{"uri": "/api" + r.URI}
+func withURI(r Req) map[string]interface{} { return withURIP(r, "/api") }
+
+// withURIP spells the uri with another (equivalent) prefix.
+func withURIP(r Req, prefix string) map[string]interface{} {
+	m := map[string]interface{}{"uri": prefix + r.URI}
+	if r.RawURI != nil {
+		m["uri"] = r.RawURI
+	}
 	for k, v := range r.Params {
 		m[k] = v
 	}
@@ -157,14 +164,7 @@ func queryEnc(name, prefix string) encoding {
 }
 
 var encodings = []encoding{
-	{"direct", func(e *engine, r Req) Resp {
-		var out bytes.Buffer
-		_, err := e.svc.ProcessRequest(drv.Ctx(), ref.CloneMap(withURI(r)), &out)
-		if err != nil {
-			return Resp{Status: 400, Body: err.Error()}
-		}
-		return Resp{Status: 200, Body: out.String()}
-	}},
+	directEnc("direct", "/api"),
 	queryEnc("query", "/api"),
 	queryEnc("query-noapi", ""),
 	queryEnc("query-version", "/v1.0"),
@@ -179,16 +179,73 @@ var encodings = []encoding{
 		b, _ := json.Marshal(r.Params)
 		return httpDo("POST", e.srv.URL+"/api"+r.URI, string(b), "application/json")
 	}},
-	{"json-envelope", func(e *engine, r Req) Resp {
-		b, _ := json.Marshal(withURI(r))
+	envelopeEnc("json-envelope", "/api"),
+	yamlEnc("yaml", "/api"),
+	batchEnc("batch", "/api"),
+	// the same operations under the other spellings of the uri and the sniffed YAML body
+	directEnc("direct-noapi", ""),
+	directEnc("direct-version", "/v1.0/api"),
+	envelopeEnc("json-envelope-noapi", ""),
+	envelopeEnc("json-envelope-version", "/v1.0"),
+	yamlEnc("yaml-noapi", ""),
+	batchEnc("batch-noapi", ""),
+	batchEnc("batch-version", "/v1.0/api"),
+	batchEnc("batch-version-noapi", "/0.0.9"),
+	{"yaml-body", func(e *engine, r Req) Resp {
+		b, _ := yaml.Marshal(r.Params)
+		return httpDo("POST", e.srv.URL+"/api"+r.URI, string(b), "text/yaml")
+	}},
+	{"json-body-version", func(e *engine, r Req) Resp {
+		b, _ := json.Marshal(r.Params)
+		return httpDo("POST", e.srv.URL+"/v1.0/api"+r.URI, string(b), "application/json")
+	}},
+	{"form-noapi", func(e *engine, r Req) Resp {
+		q := url.Values{}
+		for k, v := range r.Params {
+			q.Set(k, asString(v))
+		}
+		return httpDo("POST", e.srv.URL+r.URI, q.Encode(), "application/x-www-form-urlencoded")
+	}},
+}
+
+// carriesURI: renderings in which the uri is a datum of the request (and can be ill-typed).
+func carriesURI(name string) bool {
+	return strings.HasPrefix(name, "direct") || strings.HasPrefix(name, "json-envelope") || name == "yaml" || name == "yaml-noapi" || strings.HasPrefix(name, "batch")
+}
+
+func directEnc(name, prefix string) encoding {
+	return encoding{name, func(e *engine, r Req) (resp Resp) {
+		defer func() {
+			if x := recover(); x != nil {
+				resp = Resp{Err: fmt.Sprint("ProcessRequest panicked: ", x)}
+			}
+		}()
+		var out bytes.Buffer
+		_, err := e.svc.ProcessRequest(drv.Ctx(), ref.CloneMap(withURIP(r, prefix)), &out)
+		if err != nil {
+			return Resp{Status: 400, Body: err.Error()}
+		}
+		return Resp{Status: 200, Body: out.String()}
+	}}
+}
+
+func envelopeEnc(name, prefix string) encoding {
+	return encoding{name, func(e *engine, r Req) Resp {
+		b, _ := json.Marshal(withURIP(r, prefix))
 		return httpDo("POST", e.srv.URL+"/api/json", string(b), "application/json")
-	}},
-	{"yaml", func(e *engine, r Req) Resp {
-		b, _ := yaml.Marshal(withURI(r))
+	}}
+}
+
+func yamlEnc(name, prefix string) encoding {
+	return encoding{name, func(e *engine, r Req) Resp {
+		b, _ := yaml.Marshal(withURIP(r, prefix))
 		return httpDo("POST", e.srv.URL+"/api/yaml", string(b), "text/yaml")
-	}},
-	{"batch", func(e *engine, r Req) Resp {
-		b, _ := json.Marshal(map[string]interface{}{"requests": []interface{}{withURI(r)}})
+	}}
+}
+
+func batchEnc(name, prefix string) encoding {
+	return encoding{name, func(e *engine, r Req) Resp {
+		b, _ := json.Marshal(map[string]interface{}{"requests": []interface{}{withURIP(r, prefix)}})
 		resp := httpDo("POST", e.srv.URL+"/api/sys/util/batch", string(b), "application/json")
 		var arr []interface{}
 		if json.Unmarshal([]byte(strings.TrimSpace(resp.Body)), &arr) == nil && len(arr) == 1 {
@@ -206,7 +263,7 @@ var encodings = []encoding{
 			}
 		}
 		return resp
-	}},
+	}}
 }
 
 // ---- generators ----
@@ -233,7 +290,12 @@ func genHistory(g *gen.Gen, n int) []Req {
 		id := ids[g.Intn(3)]
 		p := map[string]interface{}{"location": loc}
 		r := Req{Params: p}
-		switch g.Intn(15) {
+		switch g.Intn(17) {
+		case 15:
+			r.URI = []string{"/loc/admin/create", "/loc/admin/size", "/loc/rules/list"}[g.Intn(3)]
+		case 16:
+			// one-parameter operations that change the location
+			r.URI = []string{"/loc/admin/clear", "/loc/admin/delete"}[g.Intn(2)]
 		case 0, 1, 2:
 			r.URI = "/loc/facts/add"
 			lastFact = genFact(g)
@@ -325,6 +387,9 @@ func negatives(g *gen.Gen) []Req {
 		Req{URI: "/loc/facts/search", Params: map[string]interface{}{"location": 7.0, "pattern": map[string]interface{}{"a": "?x"}}, Neg: "typed:location is a number"},
 		Req{URI: "/loc/facts/search", Params: map[string]interface{}{"location": "plain", "pattern": map[string]interface{}{"a": "?x"}, "inherited": 3.0}, Neg: "typed:inherited is a number"},
 		Req{URI: "/loc/nowhere", Params: map[string]interface{}{"location": "plain"}, Neg: "unknown URI"},
+		Req{URI: "/loc/rules/list", RawURI: 5.0, Params: map[string]interface{}{"location": "plain"}, Neg: "typed-uri:the uri is a number"},
+		Req{URI: "/loc/rules/list", RawURI: map[string]interface{}{"a": "/api/loc/rules/list"}, Params: map[string]interface{}{"location": "plain"}, Neg: "typed-uri:the uri is a map"},
+		Req{URI: "/loc/rules/list", RawURI: []interface{}{"/api/loc/rules/list"}, Params: map[string]interface{}{"location": "plain"}, Neg: "typed-uri:the uri is an array"},
 		Req{URI: "/loc/facts/get", Params: map[string]interface{}{"location": "plain", "id": "never-added"}, Neg: "operation fails: no such fact"},
 		Req{URI: "/loc/rules/add", Params: map[string]interface{}{"location": "plain", "rule": map[string]interface{}{"action": map[string]interface{}{"code": "1"}}}, Neg: "operation fails: rule without when/schedule"},
 		Req{URI: "/loc/facts/query", Params: map[string]interface{}{"location": "plain", "query": map[string]interface{}{"bogus": 1.0}}, Neg: "operation fails: unparsable query"},
@@ -366,6 +431,8 @@ func toSys(q Req) (drv.Req, bool) {
 		if set, ok := q.Params["set"].(string); ok {
 			return drv.Req{Op: "setParents", Loc: loc, Doc: set}, true
 		}
+	case "/loc/admin/clear":
+		return drv.Req{Op: "clear", Loc: loc}, true
 	}
 	return drv.Req{}, false
 }
@@ -458,6 +525,38 @@ func main() {
 			}
 			eng.srv.Close()
 		}
+		// the whole history as the elements of one batch, the uri spelled differently per element
+		{
+			spell := []string{"/api", "", "/v1.0/api", "/v1.0", "/0.0.9/api"}
+			var elems []interface{}
+			for i, q := range hist {
+				elems = append(elems, withURIP(q, spell[i%len(spell)]))
+			}
+			eng := newEngine()
+			b, _ := json.Marshal(map[string]interface{}{"requests": elems})
+			resp := httpDo("POST", eng.srv.URL+"/api/sys/util/batch", string(b), "application/json")
+			eng.srv.Close()
+			var arr []interface{}
+			if resp.Status != 200 || json.Unmarshal([]byte(strings.TrimSpace(resp.Body)), &arr) != nil || len(arr) != len(hist) {
+				r.Violate("", "a batch of well-formed requests is not answered by one JSON element per request", rep.J{"history": hist, "response": resp})
+			} else {
+				var rs []Resp
+				for _, el := range arr {
+					if em, ok := el.(map[string]interface{}); ok {
+						if ev, isErr := em["error"]; isErr && len(em) == 1 {
+							rs = append(rs, Resp{Status: 400, Body: fmt.Sprint(ev)})
+							continue
+						}
+					}
+					eb, _ := json.Marshal(el)
+					if string(eb) == "null" {
+						eb = nil
+					}
+					rs = append(rs, Resp{Status: 200, Body: string(eb)})
+				}
+				results["batch-whole-history"] = rs
+			}
+		}
 		// the sys.System twin, driven directly
 		twin, _ := drv.NewSys(drv.SysOpts{TTL: sys.Forever}, cronner.New(true))
 		for i, q := range hist {
@@ -469,6 +568,29 @@ func main() {
 				}
 			} else {
 				// keep the twin in step for operations without a comparison
+				if q.URI == "/loc/admin/delete" {
+					loc, _ := q.Params["location"].(string)
+					twin.DeleteLocation(drv.Ctx(), loc)
+				}
+				if q.URI == "/loc/admin/create" {
+					// the service reports "already exists" as an error; the System call returns created=false
+					loc, _ := q.Params["location"].(string)
+					created, err := twin.CreateLocation(drv.Ctx(), loc)
+					r.Count("compared_with_direct_system_call", 1)
+					if (err == nil && created) != (results["direct"][i].Status == 200) {
+						r.Violate("", "/loc/admin/create through the service does not report what the direct System call reports", rep.J{"request": q, "service_response": results["direct"][i], "system_created": created, "system_err": fmt.Sprint(err), "history": hist[:i+1]})
+					}
+				}
+				if q.URI == "/loc/admin/size" {
+					loc, _ := q.Params["location"].(string)
+					n, err := twin.GetSize(drv.Ctx(), loc)
+					var body map[string]interface{}
+					json.Unmarshal([]byte(strings.TrimSpace(results["direct"][i].Body)), &body)
+					r.Count("compared_with_direct_system_call", 1)
+					if (err == nil) != (results["direct"][i].Status == 200) || (err == nil && fmt.Sprint(body["size"]) != fmt.Sprint(n)) {
+						r.Violate("", "/loc/admin/size through the service does not return what the direct System call returns", rep.J{"request": q, "service_response": results["direct"][i], "system_size": n, "system_err": fmt.Sprint(err), "history": hist[:i+1]})
+					}
+				}
 				if q.URI == "/loc/facts/take" {
 					loc, _ := q.Params["location"].(string)
 					pj, _ := json.Marshal(q.Params["pattern"])
@@ -483,7 +605,10 @@ func main() {
 		for i, q := range hist {
 			base := results["direct"][i]
 			escaping := strings.ContainsAny(ref.Canon(q.Params), " &%+/?#'\"\\<>{}") || strings.Contains(ref.Canon(q.Params), "\\u")
-			for _, enc := range encodings[1:] {
+			for _, enc := range append(encodings[1:], encoding{name: "batch-whole-history"}) {
+				if len(results[enc.name]) <= i {
+					continue
+				}
 				got := results[enc.name][i]
 				r.Case(escaping, fmt.Sprint(e.BatchSeed(), hi, i, enc.name))
 				wit := rep.J{"request": q, "encoding": enc.name, "response": got, "direct": base, "history": hist[:i+1]}
@@ -508,8 +633,11 @@ func main() {
 	g := gen.New(e.BatchSeed())
 	for ni, q := range negatives(g) {
 		for _, enc := range encodings {
-			if strings.HasPrefix(q.Neg, "typed:") && (strings.HasPrefix(enc.name, "query") || enc.name == "form") {
+			if strings.HasPrefix(q.Neg, "typed:") && (strings.HasPrefix(enc.name, "query") || strings.HasPrefix(enc.name, "form")) {
 				continue // query strings carry no JSON types
+			}
+			if strings.HasPrefix(q.Neg, "typed-uri:") && !carriesURI(enc.name) {
+				continue
 			}
 			eng := newEngine()
 			got := enc.do(eng, q)
